@@ -75,6 +75,23 @@ func (w *_nodeRepr) Kind() datamodel.Kind {
 	}
 }
 
+// wrongKind returns an ErrWrongKind if the representation of this node is not of one of the given kinds.
+// The representation kind can differ from the type-level kind (tuple, listpairs and stringjoin structs,
+// stringprefix and kinded unions, int enums), so every representation-level accessor checks it first
+// rather than relying on the type-level node to refuse.
+func (w *_nodeRepr) wrongKind(method string, appropriate datamodel.KindSet) error {
+	actual := w.Kind()
+	if appropriate.Contains(actual) {
+		return nil
+	}
+	return datamodel.ErrWrongKind{
+		TypeName:        w.schemaType.Name() + ".Repr",
+		MethodName:      method,
+		AppropriateKind: appropriate,
+		ActualKind:      actual,
+	}
+}
+
 func outboundMappedKey(stg schema.StructRepresentation_Map, key string) string {
 	// TODO: why doesn't stg just allow us to "get" by the key string?
 	field := schema.SpawnStructField(key, "", false, false)
@@ -132,6 +149,9 @@ func (w *_nodeRepr) asKinded(stg schema.UnionRepresentation_Kinded, kind datamod
 }
 
 func (w *_nodeRepr) LookupByString(key string) (datamodel.Node, error) {
+	if err := w.wrongKind("LookupByString", datamodel.KindSet_JustMap); err != nil {
+		return nil, err
+	}
 	if stg, ok := reprStrategy(w.schemaType).(schema.UnionRepresentation_Kinded); ok {
 		w = w.asKinded(stg, datamodel.Kind_Map)
 	}
@@ -160,6 +180,9 @@ func (w *_nodeRepr) LookupByString(key string) (datamodel.Node, error) {
 }
 
 func (w *_nodeRepr) LookupByIndex(idx int64) (datamodel.Node, error) {
+	if err := w.wrongKind("LookupByIndex", datamodel.KindSet_JustList); err != nil {
+		return nil, err
+	}
 	switch stg := reprStrategy(w.schemaType).(type) {
 	case schema.UnionRepresentation_Kinded:
 		return w.asKinded(stg, datamodel.Kind_List).LookupByIndex(idx)
@@ -204,6 +227,9 @@ func (w *_nodeRepr) LookupByIndex(idx int64) (datamodel.Node, error) {
 }
 
 func (w *_nodeRepr) LookupBySegment(seg datamodel.PathSegment) (datamodel.Node, error) {
+	if err := w.wrongKind("LookupBySegment", datamodel.KindSet_Recursive); err != nil {
+		return nil, err
+	}
 	switch w.Kind() {
 	case datamodel.Kind_Map:
 		return w.LookupByString(seg.String())
@@ -223,6 +249,9 @@ func (w *_nodeRepr) LookupBySegment(seg datamodel.PathSegment) (datamodel.Node, 
 }
 
 func (w *_nodeRepr) LookupByNode(key datamodel.Node) (datamodel.Node, error) {
+	if err := w.wrongKind("LookupByNode", datamodel.KindSet_Recursive); err != nil {
+		return nil, err
+	}
 	switch w.Kind() {
 	case datamodel.Kind_Map:
 		s, err := key.AsString()
@@ -246,6 +275,9 @@ func (w *_nodeRepr) LookupByNode(key datamodel.Node) (datamodel.Node, error) {
 }
 
 func (w *_nodeRepr) MapIterator() datamodel.MapIterator {
+	if w.wrongKind("MapIterator", datamodel.KindSet_JustMap) != nil {
+		return nil
+	}
 	// TODO: we can try to reuse reprStrategy here and elsewhere
 	if stg, ok := reprStrategy(w.schemaType).(schema.UnionRepresentation_Kinded); ok {
 		w = w.asKinded(stg, datamodel.Kind_Map)
@@ -283,6 +315,9 @@ func (w *_mapIteratorRepr) Done() bool {
 }
 
 func (w *_nodeRepr) ListIterator() datamodel.ListIterator {
+	if w.wrongKind("ListIterator", datamodel.KindSet_JustList) != nil {
+		return nil
+	}
 	if stg, ok := reprStrategy(w.schemaType).(schema.UnionRepresentation_Kinded); ok {
 		w = w.asKinded(stg, datamodel.Kind_List)
 	}
@@ -426,6 +461,9 @@ func (w *_nodeRepr) lengthMinusTrailingAbsents() int64 {
 }
 
 func (w *_nodeRepr) Length() int64 {
+	if w.wrongKind("Length", datamodel.KindSet_Recursive) != nil {
+		return -1
+	}
 	switch stg := reprStrategy(w.schemaType).(type) {
 	case schema.StructRepresentation_Stringjoin:
 		return -1
@@ -460,6 +498,9 @@ func (w *_nodeRepr) IsNull() bool {
 }
 
 func (w *_nodeRepr) AsBool() (bool, error) {
+	if err := w.wrongKind("AsBool", datamodel.KindSet_JustBool); err != nil {
+		return false, err
+	}
 	switch stg := reprStrategy(w.schemaType).(type) {
 	case schema.UnionRepresentation_Kinded:
 		return w.asKinded(stg, datamodel.Kind_Bool).AsBool()
@@ -469,6 +510,9 @@ func (w *_nodeRepr) AsBool() (bool, error) {
 }
 
 func (w *_nodeRepr) AsInt() (int64, error) {
+	if err := w.wrongKind("AsInt", datamodel.KindSet_JustInt); err != nil {
+		return 0, err
+	}
 	switch stg := reprStrategy(w.schemaType).(type) {
 	case schema.UnionRepresentation_Kinded:
 		return w.asKinded(stg, datamodel.Kind_Int).AsInt()
@@ -511,6 +555,9 @@ func (w *_nodeRepr) AsInt() (int64, error) {
 }
 
 func (w *_nodeRepr) AsFloat() (float64, error) {
+	if err := w.wrongKind("AsFloat", datamodel.KindSet_JustFloat); err != nil {
+		return 0, err
+	}
 	switch stg := reprStrategy(w.schemaType).(type) {
 	case schema.UnionRepresentation_Kinded:
 		return w.asKinded(stg, datamodel.Kind_Float).AsFloat()
@@ -520,6 +567,9 @@ func (w *_nodeRepr) AsFloat() (float64, error) {
 }
 
 func (w *_nodeRepr) AsString() (string, error) {
+	if err := w.wrongKind("AsString", datamodel.KindSet_JustString); err != nil {
+		return "", err
+	}
 	switch stg := reprStrategy(w.schemaType).(type) {
 	case schema.StructRepresentation_Stringjoin:
 		var b strings.Builder
@@ -585,6 +635,9 @@ func (w *_nodeRepr) AsString() (string, error) {
 }
 
 func (w *_nodeRepr) AsBytes() ([]byte, error) {
+	if err := w.wrongKind("AsBytes", datamodel.KindSet_JustBytes); err != nil {
+		return nil, err
+	}
 	switch stg := reprStrategy(w.schemaType).(type) {
 	case schema.UnionRepresentation_Kinded:
 		return w.asKinded(stg, datamodel.Kind_Bytes).AsBytes()
@@ -594,6 +647,9 @@ func (w *_nodeRepr) AsBytes() ([]byte, error) {
 }
 
 func (w *_nodeRepr) AsLink() (datamodel.Link, error) {
+	if err := w.wrongKind("AsLink", datamodel.KindSet_JustLink); err != nil {
+		return nil, err
+	}
 	switch stg := reprStrategy(w.schemaType).(type) {
 	case schema.UnionRepresentation_Kinded:
 		return w.asKinded(stg, datamodel.Kind_Link).AsLink()
